@@ -306,9 +306,6 @@ protected:
                 float _imag = ((const float*)&value_i)[Size - i - 1];
                 data[Size - i - 1] = std::complex<float>(_real,_imag);
             }
-            else {
-                data[Size - i - 1] = std::complex<float>(0,0);
-            }
         }
 #endif
     }
@@ -328,9 +325,6 @@ protected:
                 float _real = ((const float*)&value_r)[Size - i - 1];
                 float _imag = ((const float*)&value_i)[Size - i - 1];
                 data[Size - i - 1] = std::complex<float>(_real,_imag);
-            }
-            else {
-                data[Size - i - 1] = std::complex<float>(0,0);
             }
         }
 #endif
@@ -846,9 +840,6 @@ protected:
                 float _imag = ((const float*)&value_i)[Size - i - 1];
                 data[Size - i - 1] = std::complex<float>(_real,_imag);
             }
-            else {
-                data[Size - i - 1] = std::complex<float>(0,0);
-            }
         }
 #endif
     }
@@ -868,9 +859,6 @@ protected:
                 float _real = ((const float*)&value_r)[Size - i - 1];
                 float _imag = ((const float*)&value_i)[Size - i - 1];
                 data[Size - i - 1] = std::complex<float>(_real,_imag);
-            }
-            else {
-                data[Size - i - 1] = std::complex<float>(0,0);
             }
         }
 #endif
@@ -1373,9 +1361,6 @@ protected:
                 float _imag = ((const float*)&value_i)[Size - i - 1];
                 data[Size - i - 1] = std::complex<float>(_real,_imag);
             }
-            else {
-                data[Size - i - 1] = std::complex<float>(0,0);
-            }
         }
 #endif
     }
@@ -1395,9 +1380,6 @@ protected:
                 float _real = ((const float*)&value_r)[Size - i - 1];
                 float _imag = ((const float*)&value_i)[Size - i - 1];
                 data[Size - i - 1] = std::complex<float>(_real,_imag);
-            }
-            else {
-                data[Size - i - 1] = std::complex<float>(0,0);
             }
         }
 #endif
